@@ -621,7 +621,7 @@ func runJob(j job) *jobResult {
 			if outcome == "ok" {
 				res.Completed++
 			}
-			if cfg.Partition {
+			if cfg.Partition && len(allPCs) <= 600 {
 				allPCs = append(allPCs, mkAnd(rs.pc...))
 				if len(rs.vars) >= len(lastVars) {
 					lastVars = rs.vars
